@@ -1,12 +1,14 @@
 import Nsq.Model.Line
 import Nsq.Model.MetaAccept
+import Nsq.Model.MetaLoad
 /-! Driver for engine E5/meta (C06): one client-level operation per line in, one canonical answer out.
 The model is the tree WITH fixes/F6_persist_after_delete.patch (`fix = true`). -/
-open Nsq Nsq.Line Nsq.Model.FS Nsq.Model.Meta
+open Nsq Nsq.Line Nsq.Model.FS Nsq.Model.Meta Nsq.Model.MetaLoad
 
 structure DS where
   s : Sys B
   lo : Nat          -- index in `s.hist` of the state of the last completed synchronous persist
+  lm : Mem := []    -- (load legs) the maps after the last `load`
 
 def fixOn : Bool := true
 
@@ -46,9 +48,109 @@ def persistUntilSnapped : Nat → Sys B → Sys B
     | some p => if p.phase = .reading then persistUntilSnapped fuel (runSteps fixOn s [.persist .read]) else s
     | none => s
 
+
+/-! ### round 6: `load` / `reload` / `persistfault` / `new` (Model.MetaLoad) -/
+
+def nameHex (s : String) : String := "x" ++ (if s.isEmpty then "" else hex s.toUTF8.toList)
+def unName (s : String) : Option String :=
+  if !s.startsWith "x" then none else
+  match unhex (if s.length == 1 then "-" else (s.drop 1).toString) with
+  | none => none
+  | some b => String.fromUTF8? (ByteArray.mk b.toArray)
+
+def sortStr (l : List String) : List String := sortBy (fun a b => decide (a < b)) l
+def joinOr (l : List String) (sep : String) : String := if l.isEmpty then "." else sep.intercalate l
+
+def showMemX (m : Mem) : String :=
+  joinOr (sortStr (m.map (fun t => nameHex t.name ++ ":" ++ bit t.paused ++ ":" ++ bit t.eph ++ "[" ++
+    ",".intercalate (sortStr (t.chans.map (fun c => nameHex c.name ++ ":" ++ bit c.paused ++ ":" ++ bit c.eph))) ++ "]"))) ";"
+def showDocX (d : Doc) : String :=
+  joinOr (sortStr (d.map (fun t => nameHex t.name ++ ":" ++ bit t.paused ++ "[" ++
+    ",".intercalate (sortStr (t.chans.map (fun c => nameHex c.name ++ ":" ++ bit c.paused))) ++ "]"))) ";"
+
+def parseChanX (s : String) : Option ChanM :=
+  match s.splitOn ":" with
+  | [n, f] => match unName n, parseFlag f with
+    | some n, some b => some ⟨n, b⟩
+    | _, _ => none
+  | _ => none
+def parseTopicX (s : String) : Option TopicM :=
+  match s.splitOn "[" with
+  | [hd, tl] =>
+    match hd.splitOn ":" with
+    | [n, f] =>
+      let body := (tl.dropRightWhile (· == ']'))
+      let cs := if body.isEmpty then some [] else (body.splitOn ",").mapM parseChanX
+      match unName n, parseFlag f, cs with
+      | some n, some b, some cs => some ⟨n, b, cs⟩
+      | _, _, _ => none
+    | _ => none
+  | _ => none
+/-- the decoded document in file order; `.` = no topics -/
+def parseDocX (s : String) : Option Doc := if s = "." then some [] else (s.splitOn ";").mapM parseTopicX
+
+def showLoad (r : LoadRes) : String :=
+  match r.mem with
+  | none => "refuse"
+  | some m => s!"ok mem={showMemX m} snap={showDocX (snap m)}"
+
+/-- bytes that `encoding/json` rejects, in the toy codec -/
+def badBytes : B := ([], some 0)
+
+def loadLine (d : DS) (w : List String) : DS × String :=
+  match w with
+  | ["load", kind, _, doc] =>
+    let fc : Option (FileContent B) :=
+      if kind == "absent" then some .absent
+      else if kind == "dir" then some .unreadable
+      else if kind == "bytes" then
+        (if doc == "-" then some (.present badBytes) else (parseDocX doc).map (fun x => .present (toyCodec.marshal x)))
+      else none
+    match fc with
+    | none => (d, "bad-op")
+    | some fc =>
+      let r := startOn toyCodec .dir false fc
+      match r with
+      | none => (d, "newfail")
+      | some r => ({ d with lm := (r.mem.getD []) }, showLoad r)
+  | ["reload"] =>
+    -- PersistMetadata right after the load, graceful stop, next start
+    let r := load toyCodec (.present (toyCodec.marshal (snap d.lm)))
+    ({ d with lm := (r.mem.getD []) }, showLoad r)
+  | ["persistfault", what] =>
+    let fs0 : FS B := { dat := some ([⟨"old", false, []⟩], none), tmps := [] }
+    let doc : Doc := [⟨"t0", false, [⟨"c0", false⟩]⟩]
+    let out : Option POutcome := if what == "rename" then some .renameFails else if what == "open" then some .openFails
+      else if what == "sync" then some .syncFails else if what == "write" then some (.writeFails 3) else none
+    match out with
+    | none => (d, "bad-op")
+    | some out =>
+      let r := persistOnce toyCodec fs0 5 doc out
+      let base := s!"err={bit (!r.2)} dat={if r.1.dat == fs0.dat then "unchanged" else "changed"}"
+      if what == "rename" then
+        -- the handlers store the flag first (MemStep.pauseTopic / pauseChan), persist, and answer `pauseAnswer`
+        (d, base ++ s!" tmpcomplete={bit (r.1.tmp 5 == some (toyCodec.marshal doc))} pause={pauseAnswer r.2},{pauseAnswer r.2} memflag=1")
+      else (d, base)
+  | ["new", what] =>
+    let good : FileContent B := .present (toyCodec.marshal [⟨"t0", false, []⟩])
+    let r : Option (Option LoadRes × String) :=
+      if what == "missing" then some (startOn toyCodec .missing false good, " created=0")
+      else if what == "file" then some (startOn toyCodec .regularFile false good, " untouched=1")
+      else if what == "held" then some (startOn toyCodec .dir true good, " untouched=1")
+      else none
+    match r with
+    | none => (d, "bad-op")
+    | some (none, sfx) => (d, "lockerror" ++ sfx)
+    | some (some lr, sfx) => (d, "locked " ++ (if lr.mem.isNone then "refuse" else "ok") ++ sfx)
+  | _ => (d, "bad-op")
+
 def stepLine (d : DS) (line : String) : DS × String :=
   let w := words line
   match w with
+  | "load" :: _ => loadLine d w
+  | ["reload"] => loadLine d w
+  | "persistfault" :: _ => loadLine d w
+  | "new" :: _ => loadLine d w
   | ["start"] =>
     if d.s.alive then (d, "bad-op") else
     let s := runSteps fixOn d.s [.start]
